@@ -577,7 +577,9 @@ func c19Recover(c *Ctx, once *crSigOnce, d *c19DB, img *stor.Stor, cs *c19Case, 
 	// storage operations made from inside Recover's own rebuild; each must afterwards either open with everything
 	// or refuse to open and be recoverable with everything (checked below, once Recover itself is through).
 	var crashImgs []*stor.Stor
+	crashScenario := false
 	if vers == nil && readFault == 0 && r.Chance(1, 8) {
+		crashScenario = true
 		every := 1 + r.Intn(3)
 		var nmut int
 		img.SetHooks(nil, func(s *stor.Stor, op stor.Op) {
@@ -592,7 +594,27 @@ func c19Recover(c *Ctx, once *crSigOnce, d *c19DB, img *stor.Stor, cs *c19Case, 
 			}
 		})
 	}
+	// a third of the cases that go to the Lean model: the operations of recoverTable are recorded and crash images
+	// are taken between them (process exit and machine crash), for Model/RecoverOps.lean (c19lean.go)
+	leanOps := false
+	if cs.lean != nil && readFault == 0 && !crashScenario && r.Chance(1, 3) {
+		leanOps = true
+		cs.lean.ops = []string{}
+		img.SetHooks(nil, cs.lean.hook(1+r.Intn(2)))
+	}
 	err, hung := crCall(crWdTimeout, func() (err error) { db, err = leveldb.Recover(img, d.o); return })
+	if leanOps {
+		img.SetHooks(nil, nil)
+		if err != nil || hung {
+			cs.lean.ops, cs.lean.crashes = nil, nil
+		} else {
+			cs.lean.evalCrashes(d.o)
+			c.Res.CountN("lean", part+":crash-images", len(cs.lean.crashes))
+			if cs.lean.irregular {
+				c.Res.Count("lean", part+":journal-flushed-in-pieces")
+			}
+		}
+	}
 	if crashImgs != nil {
 		img.SetHooks(nil, nil)
 		c.Res.CountN("crash_in_recover", "images", len(crashImgs))
@@ -651,6 +673,21 @@ func c19Recover(c *Ctx, once *crSigOnce, d *c19DB, img *stor.Stor, cs *c19Case, 
 	if err != nil {
 		once.report(c, d19("scan-error"), fmt.Sprintf("scan after Recover failed: %v", err), cs)
 		return
+	}
+	if cs.lean != nil && cs.lean.crashes != nil {
+		// Go-side oracle for the crash images taken for the model: a second Recover returns what the uninterrupted
+		// one returned, and — the old manifest being unreachable — an Open that succeeds returns the same
+		want := strings.Replace(crDigest(got), " ", ":", 1)
+		for _, cr := range cs.lean.crashes {
+			if cr.again != want {
+				once.report(c, "recover:crash-inside-Recover:second-recover-differs", fmt.Sprintf("crash after %d storage operations of Recover (%s): a second Recover returns %s, the uninterrupted one %s; recoverTable's operations: %v, openDB's: %v", cr.k, cr.how, cr.again, want, cs.lean.ops, cs.lean.ops3), cs)
+				break
+			}
+			if (cs.Manifest == "deleted" || cs.Manifest == "current-cleared") && strings.HasPrefix(cr.open, "ok:") && cr.open != "ok:"+want {
+				once.report(c, "recover:crash-inside-Recover:open-succeeds-with-data-lost", fmt.Sprintf("crash after %d storage operations of Recover (%s): Open succeeds with %s, Recover returns %s", cr.k, cr.how, cr.open, want), cs)
+				break
+			}
+		}
 	}
 	if cs.lean != nil {
 		if c19EmitRebuild(c, cs.lean, d.o, cs.Hist.Opts.Cmp, "ok "+crDigest(got)) {
